@@ -87,10 +87,42 @@ Proof. constructor. Qed.
 (* ------------------------------------------------------------------------------------------ *)
 (* what a snapshot shows of a document is the document                                          *)
 
+Lemma obj_get_set_same {V} k (v : V) m : obj_get k (obj_set k v m) = Some v.
+Proof.
+  unfold obj_get. induction m as [|[k2 v2] r IH]; cbn.
+  - rewrite String.eqb_refl. reflexivity.
+  - destruct (String.eqb k k2) eqn:E; cbn.
+    + rewrite String.eqb_refl. reflexivity.
+    + destruct (str_ltb k k2); cbn; [rewrite String.eqb_refl; reflexivity | rewrite E; exact IH].
+Qed.
+
+Lemma collect_virtual r0 xn :
+  let xs := collect_xattrs r0 (xn ++ ["$document"; "$document.revid"]) in
+  alookup String.eqb "$document" xs = Some (docx_string (r_value r0) (r_rev r0))
+  /\ alookup String.eqb "$document.revid" xs = Some (revx_string (r_rev r0)).
+Proof.
+  cbv zeta. unfold collect_xattrs. rewrite fold_left_app. cbn [fold_left String.eqb Ascii.eqb Bool.eqb].
+  set (X := fold_left _ xn []). split.
+  - change (obj_get "$document" (obj_set "$document.revid" (revx_string (r_rev r0)) (obj_set "$document" (virtual_document r0) X))
+            = Some (docx_string (r_value r0) (r_rev r0))).
+    rewrite obj_get_set_other by discriminate. apply obj_get_set_same.
+  - change (obj_get "$document.revid" (obj_set "$document.revid" (revx_string (r_rev r0)) (obj_set "$document" (virtual_document r0) X))
+            = Some (revx_string (r_rev r0))).
+    apply obj_get_set_same.
+Qed.
+
 Lemma view_of_obs_of cid key xn r : view_of_obs (obs_of cid key xn r) = option_map view_of_row r.
 Proof.
-  destruct r as [[v j c e xx t rv]|]; [|reflexivity].
-  destruct v, t, xx; reflexivity.
+  destruct r as [r0|]; [|reflexivity].
+  destruct (collect_virtual r0 xn) as [H1 H2]. cbv zeta in H1, H2.
+  unfold view_of_obs, obs_of. cbn [o_dump o_get o_doc kstep kr_resp].
+  unfold do_getwithxattrs. 
+  destruct (collect_xattrs r0 (xn ++ ["$document"; "$document.revid"])) as [|p l] eqn:E; [discriminate H1|].
+  replace (kr_resp match r_value r0 with
+                   | Some _ | _ => mkRes (Some r0) (RDoc (r_value r0) (p :: l) (r_cas r0)) [] 0 None
+                   end) with (RDoc (r_value r0) (p :: l) (r_cas r0)) by (destruct (r_value r0); reflexivity).
+  unfold doc_xattr. rewrite H1, H2.
+  destruct r0 as [v j c e xx t rv]. destruct v, t, xx; reflexivity.
 Qed.
 
 Lemma coll_of_obs_of cid key xn r : coll_of_obs (obs_of cid key xn r) 0 = match r with Some _ => cid - 1 | None => 0 end.
